@@ -43,6 +43,8 @@ def sweep_cases(shard, tier):
     for mask, kinds, style, rev in _sweep.graph_space(tier, n):
         if not (lo <= mask < hi) or style != "int" or rev:
             continue
+        if entry == "mp" and "m" in kinds:
+            continue  # dict arguments + legacy fuse: judged under C09 (known finding fuse:*:dict-arg)
         fails = [()] + [f for f in _sweep.failsets(n, mask, kinds, 1, "V")]
         reqs = [list(range(n))] + list(range(n))
         for fail in fails:
